@@ -85,11 +85,16 @@ Mk(name, kind, j) ==
      outcome |-> IF Mod(j, 3) = 2 THEN "err" ELSE "ok",
      \* the declared response type of a query, and whether it is given explicitly (`resp=`) with an aliased result type (C16)
      resp |-> IF kind # "query" THEN "" ELSE IF Mod(j, 2) = 0 THEN "QResp" ELSE "QRespB",
-     explicit |-> kind = "query" /\ Mod(j, 4) = 3]
+     explicit |-> kind = "query" /\ (Mod(j, 4) = 3 \/ Mod(j, 8) = 5),
+     \* how the signature is written when `resp=` is given: an aliased result type, or a plain Result of *another* type
+     \* (the declared response type is the attribute's; `ret` is what the handler actually returns)
+     sig |-> IF kind = "query" /\ Mod(j, 8) = 5 THEN "plain" ELSE "alias",
+     ret |-> IF kind # "query" THEN "" ELSE IF Mod(j, 8) = 5 THEN "QResp" ELSE IF Mod(j, 2) = 0 THEN "QResp" ELSE "QRespB"]
 
-InstMethod(j) == [name |-> NameInstantiate, kind |-> "instantiate", args |-> Sigs[Mod(j, 3) + 1], outcome |-> "ok", resp |-> "", explicit |-> FALSE]
+InstMethod(j) == [name |-> NameInstantiate, kind |-> "instantiate", args |-> Sigs[Mod(j, 3) + 1], outcome |-> "ok", resp |-> "", explicit |-> FALSE,
+                  sig |-> "alias", ret |-> ""]
 MigMethod(j)  == [name |-> NameMigrate, kind |-> "migrate", args |-> Sigs[Mod(j + 1, 3) + 1],
-                  outcome |-> IF Mod(j, 2) = 0 THEN "ok" ELSE "err", resp |-> "", explicit |-> FALSE]
+                  outcome |-> IF Mod(j, 2) = 0 THEN "ok" ELSE "err", resp |-> "", explicit |-> FALSE, sig |-> "alias", ret |-> ""]
 
 (* name j of a group goes to slot (j-1) mod 9: part = slot div 3, kind = slot mod 3 *)
 SlotPart(j) == (Mod(j - 1, 9) \div 3) + 1
@@ -107,7 +112,8 @@ CorpusProg(gi) ==
 (* programs in which handlers of different kinds deliberately share names and shapes (C04) *)
 ShareSig == << [n |-> "x", t |-> "u32"] >>
 Sh(name, kind, o) == [name |-> name, kind |-> kind, args |-> ShareSig, outcome |-> o,
-                      resp |-> IF kind = "query" THEN "QResp" ELSE "", explicit |-> FALSE]
+                      resp |-> IF kind = "query" THEN "QResp" ELSE "", explicit |-> FALSE, sig |-> "alias",
+                      ret |-> IF kind = "query" THEN "QResp" ELSE ""]
 Shared1 ==
     [id |-> "S1", family |-> "shared", overrides |-> {},
      parts |-> << [id |-> "i1", methods |-> << Sh(NameFoo, "sudo", "ok"), Sh(NameBar, "exec", "ok") >>],
@@ -120,6 +126,15 @@ Shared2 ==
      parts |-> << [id |-> "own", methods |-> << Sh(NameFoo, "instantiate", "ok"),
                                                 Sh(<<"x">>, "exec", "ok"), Sh(<<"y">>, "query", "ok"), Sh(<<"z">>, "sudo", "err"),
                                                 Sh(NameBar, "migrate", "err") >>] >>]
+
+(* programs that override entry points (C06, C04): one handler of every kind, some kinds served by the user's own functions *)
+OvProg(id, ov) ==
+    [id |-> id, family |-> "override", overrides |-> ov,
+     parts |-> << [id |-> "own", methods |-> << Sh(NameInstantiate, "instantiate", "ok"), Sh(NameFoo, "exec", "ok"),
+                                                Sh(NameBar, "query", "ok"), Sh(<<"z">>, "sudo", "err"),
+                                                Sh(NameMigrate, "migrate", "ok") >>] >>]
+OverrideProgs == << OvProg("O1", {"instantiate"}), OvProg("O2", {"exec"}), OvProg("O3", {"query"}), OvProg("O4", {"sudo"}),
+                    OvProg("O5", {"migrate"}), OvProg("O6", {"exec", "sudo"}), OvProg("O7", {"instantiate", "query", "migrate"}) >>
 
 (* the exhaustive small family: every slot holds a subset (<= 1 element) of SmallNames *)
 SmallParts == [i \in 1..(Ifaces + 1) |-> IF i = Ifaces + 1 THEN "own" ELSE PartIds[i]]
@@ -145,20 +160,22 @@ PermTwin(p) ==
 RawSeq ==      \* all programs of this instance, as a sequence
        [gi \in 1..Len(Groups) |-> CorpusProg(gi)]
     \o [i \in 1..Len(SmallFs) |-> SmallProgOf(SmallFs[i], "m" \o ToString(i))]
-    \o <<Shared1, Shared2, PermTwin(Shared1), PermTwin(CorpusProg(1))>>
+    \o <<Shared1, Shared2, PermTwin(Shared1), PermTwin(CorpusProg(1))>> \o OverrideProgs
 
 (* the table of elaborated programs: the static semantics applied once per program *)
 ElabSeq == TLCEval([i \in 1..Len(RawSeq) |-> Elab(RawSeq[i])])
 ProgTable == ElabSeq          \* program "ids" of the model are indices into this sequence
-CompiledIds == {i \in 1..Len(RawSeq) : RawSeq[i].family \in {"corpus", "shared", "perm"}}
+CompiledIds == {i \in 1..Len(RawSeq) : RawSeq[i].family \in {"corpus", "shared", "perm", "override"}}
 
 (* ------------------------------------------------------------ documents *)
 KeyUniverse(q) == EWireUniverse(q) \cup EArgUniverse(q) \cup {"zz_unknown"}
 DocsFor(q) ==
-       {[shape |-> "obj1", key |-> k, body |-> b] : k \in KeyUniverse(q), b \in {"exact", "missing", "wrongtype", "extra", "notobj"}}
-  \cup {[shape |-> s, key |-> k, body |-> "exact"] : s \in {"obj2", "dup"}, k \in EWireUniverse(q)}
-  \cup {[shape |-> "obj0", key |-> "", body |-> "none"], [shape |-> "nonobj", key |-> "", body |-> "none"]}
-  \cup {[shape |-> "flat", key |-> k, body |-> "exact"] : k \in {"instantiate", "migrate"}}
+  UNION {
+       {[shape |-> "obj1", key |-> k, body |-> b, path |-> pa] : k \in KeyUniverse(q), b \in {"exact", "missing", "wrongtype", "extra", "notobj"}}
+  \cup {[shape |-> s, key |-> k, body |-> "exact", path |-> pa] : s \in {"obj2", "dup"}, k \in EWireUniverse(q)}
+  \cup {[shape |-> "obj0", key |-> "", body |-> "none", path |-> pa], [shape |-> "nonobj", key |-> "", body |-> "none", path |-> pa]}
+  \cup {[shape |-> "flat", key |-> k, body |-> "exact", path |-> pa] : k \in {"instantiate", "migrate"}}
+  : pa \in (IF q.family = "small" THEN {"ep"} ELSE {"ep", "mt"}) }
 DocTable == TLCEval([id \in DOMAIN ProgTable |-> DocsFor(ProgTable[id])])
 
 (* ---------------------------------------------------------------- model *)
@@ -179,6 +196,7 @@ Next ==
        /\ \E i \in 1..Len(P.parts) : \E m \in Range(P.parts[i].methods) : RemoteSend(i, m)
     \/ (\E o \in Oracles(P, ep, doc) : WrapperDecode(o))
     \/ (\E v \in {"ok", "err"} : StructVerdictOk(v) /\ StructDecode(v))
+    \/ (\E v \in {"ok", "err"} : OverrideDecode(v)) \/ OverrideRun
     \/ Dispatch \/ Return
 
 Spec == Init /\ [][Next]_rvars
@@ -194,10 +212,12 @@ EnumMs(q) == {x \in (1..Len(q.parts)) \X (1..(PerProg + 3)) :
                  x[2] <= Len(q.parts[x[1]].methods) /\ q.parts[x[1]].methods[x[2]].kind \in EnumKinds}
 StructMs(q) == {x \in (1..Len(q.parts)) \X (1..(PerProg + 3)) :
                  x[2] <= Len(q.parts[x[1]].methods) /\ q.parts[x[1]].methods[x[2]].kind \in {"instantiate", "migrate"}}
-Eps(q) == Range(q.ep_kinds) \ {"reply"}
+Eps(q) == (Range(q.ep_kinds) \cup Range(q.overrides)) \ {"reply"}
 M(q, x) == q.parts[x[1]].methods[x[2]]
 St(e, sh, key, body, part, meth, v) ==
     [ep |-> e, shape |-> sh, key |-> key, body |-> body, part |-> part, method |-> meth, val |-> v]
+(* the paths a stimulus is delivered through: the generated entry point (absent for an overridden kind) and the multitest impl *)
+ViasOf(q, st) == IF st.ep \in Range(q.overrides) THEN <<"mt">> ELSE <<"ep", "mt">>
 FirstWires(q, k) ==
     LET l == SetToSeq({w \in EWireUniverse(q) : \E i \in 1..Len(q.parts) : w \in EWireNames(q.parts[i], k)})
     IN SubSeq(l, 1, IF Len(l) < 2 THEN Len(l) ELSE 2)
@@ -219,7 +239,7 @@ StimSet(q) ==
   \cup {St(e, "obj2", FirstWires(q, e)[1], "exact", "", "", 0) : e \in {k \in Eps(q) \cap EnumKinds : Len(FirstWires(q, k)) = 2}}
   \cup {St(e, "dup", FirstWires(q, e)[1], "exact", "", "", 0) : e \in {k \in Eps(q) \cap EnumKinds : Len(FirstWires(q, k)) >= 1}}
 
-EmitProg(q) == q @@ [stim |-> SetToSeq(StimSet(q))]
+EmitProg(q) == q @@ [stim |-> LET ss == SetToSeq(StimSet(q)) IN [i \in 1..Len(ss) |-> ss[i] @@ [vias |-> ViasOf(q, ss[i])]]]
 
 EmitCorpus ==
     LET out == IOEnv.VERIF_OUT
@@ -232,7 +252,7 @@ EmitCorpus ==
 (* design lemmas evaluated once (constant level) *)
 LemmaC01Naming == \A n \in NameUniverse : IsShapeName(n) => WireDef(n) = n
 LemmaListsSorted ==
-    \A id \in CompiledIds : \A i \in 1..Len(RawSeq[id].parts) : \A k \in EnumKinds :
+    \A id \in {i \in CompiledIds : RawSeq[i].family # "override"} : \A i \in 1..Len(RawSeq[id].parts) : \A k \in EnumKinds :
         LET l == NameListC(RawSeq[id].parts[i], k) IN \A x \in 1..(Len(l) - 1) : NameLess(l[x], l[x + 1])
 LemmaCorpusAccepted == \A id \in CompiledIds : ProgTable[id].accepted
 LemmaCorpusCoversUniverse ==
